@@ -23,6 +23,10 @@ OBLIGATIONS = [
     (P + "field_limit_respected", "accepted parts, then a form field larger than the field limit, then anything: 413 under every chunking"),
     (P + "early_close_refused", "a complete well-formed body followed by anything, declared length greater than the body's: 400 under every chunking"),
     (P + "refusal_codes", "a multipart body is only ever refused with 400 or 413 (last_file() failure path unreachable)"),
+    (P + "multipart_accept_iff", "no CR in bkey, disk ok: run (any chunking) = ready parts IFF the stream is --bkey (CRLF hdr content CRLF--bkey)* --CRLF of the declared length with hdr accepted by process_header, delimiter not ending early in content, fields within the limit; parts = those written"),
+    (P + "malformed_refused", "a body of the declared length that is not such an encoding (missing/damaged closing delimiter, rejected header, end of data inside a part, junk after the close) -> 400 or 413 under every chunking"),
+    (P + "declared_shorter_refused", "a body accepted at its true length, declared shorter (0 < cl < length) -> 400 or 413 under every chunking"),
+    (P + "incomplete_never_delivered", "fewer bytes than declared have arrived (e.g. the connection ended): pending or refused, never handed to the application"),
     (P + "limits_respected", "declared length over the multipart limit (multipart) / content limit (other) -> 413 before any byte is looked at, whatever the bytes"),
     (P + "refused_not_partial", "a refused request delivers no field and no file"),
     (P + "raw_filter_sees_each_byte_once", "raw content filter: concatenation of the chunks it is given = the first content_length bytes, each once, in order; completes exactly at content_length"),
